@@ -182,6 +182,8 @@ static struct reftable_reader *open_reader(const char *file)
 }
 
 /* ---- queries: a query file holds one query per line ------------------------------- */
+static struct reftable_stack *query_stack = NULL;
+
 static int run_queries(struct reftable_reader *rd, struct reftable_merged_table *mt, const char *qfile)
 {
 	FILE *f = fopen(qfile, "r");
@@ -235,6 +237,24 @@ static int run_queries(struct reftable_reader *rd, struct reftable_merged_table 
 				drain_logs(&it, 8);
 				reftable_iterator_destroy(&it);
 			}
+		} else if (!strcmp(kind, "readref") && query_stack) {
+			struct reftable_ref_record ref = { NULL };
+			unhex(a, &key);
+			err = reftable_stack_read_ref(query_stack, (char *)key, &ref);
+			if (err < 0)
+				printf("ERROR read_ref: %d\n", err);
+			else if (err == 0)
+				print_ref(&ref);
+			reftable_ref_record_release(&ref);
+		} else if (!strcmp(kind, "readlog") && query_stack) {
+			struct reftable_log_record log = { NULL };
+			unhex(a, &key);
+			err = reftable_stack_read_log(query_stack, (char *)key, &log);
+			if (err < 0)
+				printf("ERROR read_log: %d\n", err);
+			else if (err == 0)
+				print_log(&log);
+			reftable_log_record_release(&log);
 		} else if (!strcmp(kind, "refsfor") && rd) {
 			unhex(a, &key);
 			err = reftable_reader_refs_for(rd, &it, key);
@@ -488,6 +508,7 @@ int main(int argc, char **argv)
 		} else {
 			struct reftable_merged_table *mt = reftable_stack_merged_table(st);
 			hash_size = opts.hash_id == SHA256_ID ? 32 : 20;
+			query_stack = st;
 			run_queries(NULL, mt, argv[3]);
 		}
 		reftable_stack_destroy(st);
